@@ -182,6 +182,11 @@ def run(ctx):
     corpus += [([("default", "en"), ("locales", ["en", "fr"])], "", a) for a in HEADER_MENTIONS_AFTER]
     cases = corpus + cases
     reqs = [{"op": "config", "cargo_toml": manifest(f, b, a), "files": []} for f, b, a in cases]
+    # the same manifests saved with CRLF line endings (every 5th, and all of the corpus): the answer does not depend on the line ending
+    crlf = list(range(len(corpus))) + list(range(len(corpus), len(cases), 5))
+    for i in crlf:
+        cases.append(cases[i])
+        reqs.append({"op": "config", "cargo_toml": reqs[i]["cargo_toml"].replace("\n", "\r\n"), "files": [], "crlf": True})
     reqs.append({"op": "config", "cargo_toml": manifest([], section=False), "files": []})
     impl = run_lines_resilient(binp, reqs)
     mreqs = [{"op": "config.new", "table": [[k, to_tv(v)] for k, v in f]} for f, b, a in cases]
@@ -275,6 +280,36 @@ def run(ctx):
             ctx.count("files-read:" + fmt)
             if r["tracked"] != exp:
                 report_violation(ctx, "config:files-read", {"case": project_text(p), "format": fmt, "expected_by_spec": exp, "implementation": r["tracked"]})
+    # per-format file extensions: a file that only exists under another format's extension is not this build's file
+    other_exts = {"json": ["json5", "yaml", "yml"], "yaml": ["json", "json5"], "json5": ["json", "yaml", "yml"]}
+    for fmt in ("json", "yaml", "json5"):
+        b = build_parser(ctx, fmt)
+        if b is None:
+            continue
+        reqs2, metas = [], []
+        for _ in range(ctx.budget(40, 600)):
+            locs = rng.sample(["en", "fr", "de", "pt-BR"], rng.range(1, 3))
+            nss = rng.pick([None, None, ["common", "home"]])
+            p = {"default": locs[0], "locales": locs, "all_locales": locs, "namespaces": nss, "inherits": {}, "extra_cfg": False, "meta": {},
+                 "files": {(ns, l): proj.O([("k", f"text {l}")]) for ns in (nss or [None]) for l in locs}}      # (every file is valid: the only thing wrong is one extension)
+            q = proj.harness_req(p, fmt)
+            if not q["files"]:
+                continue
+            i = rng.below(len(q["files"]))
+            rel, text = q["files"][i]
+            stem, _, ext = rel.rpartition(".")
+            wrong = rng.pick(other_exts[fmt])
+            q["files"][i] = [stem + "." + wrong, text]
+            reqs2.append(q)
+            metas.append((p, rel, stem + "." + wrong))
+        for (p, rel, wrong), r in zip(metas, run_lines_resilient(b, reqs2)):
+            ctx.seen({"wrong_extension": wrong, "fmt": fmt, "cfg": proj.cargo_toml(p)})
+            ctx.count("wrong-extension:" + fmt)
+            res = r.get("result", r)
+            if res.get("err") != "LocaleFileNotFound":
+                report_violation(ctx, "config:file-of-another-format-read", {
+                    "case": project_text(p), "format": fmt, "missing_file": rel, "file_present_instead": wrong, "implementation": str(res)[:300],
+                    "expected_by_spec": "error LocaleFileNotFound: only the extensions of the build's own format name this build's files"})
     ctx.assumptions += ["the TOML parser is an oracle: the model and the spec start from the decoded table; duplicate TOML keys are rejected by the parser itself",
                         "identifier validity of names as in Key.new (ASCII)"]
     finish_broken(ctx, f"{len(cases)} configurations")
